@@ -1,10 +1,85 @@
-/- Line-protocol driver for C03 (stub until the property's models exist). -/
+/-
+  Line-protocol driver for C03 (IPMB framing and reply filter).
+
+  Model (mirrors pyipmi/interfaces/ipmb.py, evaluated from Gen/IpmbFilter):
+    cks <hex>                               -> <nat>
+    hdr <rsSa rsLun netfn rqSa rqLun seq cmd>        -> ok <hex> | <error tag>
+    enc <7 fields> <hex data>               -> ok <hex> | <error tag>
+    flt <7 fields> <flags> <hex frame>      -> ok <0|1> | <error tag>
+  Spec (PyIpmi.Spec.Wire, the oracle):
+    parse <hex frame>                       -> some <7 fields> <hex data> | none
+    isreply <7 fields> <flags> <hex frame>  -> 0 | 1
+    mkreply <7 fields> <hex body>           -> <hex frame>
+    sums <hex frame>                        -> <sum8 take 3> <sum8 drop 3>
+
+  flags = five characters 0/1 in the order rq_sa rs_sa rq_lun rs_lun rq_seq.
+-/
 import PyIpmi.Base.Proto
-open PyIpmi.Proto
+import PyIpmi.Model.Ipmb
+open PyIpmi PyIpmi.Proto PyIpmi.Ipmb PyIpmi.Spec.Wire
+
+def parseHdr (ts : List String) : Option Hdr :=
+  match ts.mapM String.toNat? with
+  | some [a, b, c, d, e, f, g] =>
+    some { rsSa := a, rsLun := b, netfn := c, rqSa := d, rqLun := e, seq := f, cmd := g }
+  | _ => none
+
+def parseFlags (s : String) : Option Flags :=
+  match s.toList with
+  | [a, b, c, d, e] =>
+    if [a, b, c, d, e].all (fun x => x == '0' || x == '1') then
+      some { rqSa := a == '1', rsSa := b == '1', rqLun := c == '1', rsLun := d == '1', rqSeq := e == '1' }
+    else none
+  | _ => none
+
+def showHdr (h : Hdr) : String :=
+  s!"{h.rsSa} {h.rsLun} {h.netfn} {h.rqSa} {h.rqLun} {h.seq} {h.cmd}"
+
+def showBytes : Outcome (List Nat) → String
+  | .ok bs => "ok " ++ toHex bs
+  | e => e.tag
 
 def handleC03 (line : String) : String :=
   match tokens line with
   | ["ping"] => "pong"
+  | ["cks", h] =>
+    match ofHex h with
+    | some l => toString (pyChecksum l)
+    | none => "bad-op"
+  | "hdr" :: ts =>
+    match parseHdr ts with
+    | some h => showBytes (encodeHeader h)
+    | none => "bad-op"
+  | ["enc", a, b, c, d, e, f, g, hx] =>
+    match parseHdr [a, b, c, d, e, f, g], ofHex hx with
+    | some h, some data => showBytes (encodeIpmbMsg h data)
+    | _, _ => "bad-op"
+  | ["flt", a, b, c, d, e, f, g, fl, hx] =>
+    match parseHdr [a, b, c, d, e, f, g], parseFlags fl, ofHex hx with
+    | some h, some fl, some fr =>
+      match rxFilter h fr fl with
+      | .ok r => if r then "ok 1" else "ok 0"
+      | e => e.tag
+    | _, _, _ => "bad-op"
+  | ["parse", hx] =>
+    match ofHex hx with
+    | some fr =>
+      match parseReq fr with
+      | some (h, data) => s!"some {showHdr h} {toHex data}"
+      | none => "none"
+    | none => "bad-op"
+  | ["isreply", a, b, c, d, e, f, g, fl, hx] =>
+    match parseHdr [a, b, c, d, e, f, g], parseFlags fl, ofHex hx with
+    | some h, some fl, some fr => if decide (isReplyTo h fr fl) then "1" else "0"
+    | _, _, _ => "bad-op"
+  | ["mkreply", a, b, c, d, e, f, g, hx] =>
+    match parseHdr [a, b, c, d, e, f, g], ofHex hx with
+    | some h, some body => toHex (mkReply h body)
+    | _, _ => "bad-op"
+  | ["sums", hx] =>
+    match ofHex hx with
+    | some fr => s!"{sum8 (fr.take 3)} {sum8 (fr.drop 3)}"
+    | none => "bad-op"
   | _ => "bad-op"
 
 def main : IO Unit := do
